@@ -503,3 +503,15 @@ for _p, _rel, _q in [
     ("C20", NO, "normal"), ("C20", NO, "uniform"),
 ]:
     RN(_p, _rel, _q)
+
+# ------------------------------------------------------------------------------- whole-tree reformat (must be silent for every property)
+for _i in [1, 2, 3, 4, 5, 6, 7, 8, 10, 11, 12, 13, 14, 15, 16, 17, 18, 19, 20]:
+    VARIANTS.append(dict(id="fmt-c%02d" % _i, prop="C%02d" % _i, expect="silent", edits=[("@unparse_all",)], rule=None,
+                         what="every source file re-emitted by ast.unparse: comments, layout and line numbers change, nothing else"))
+
+# ------------------------------------------------------------------------------- C16 seed-inspired
+V("c16-skeleton-maximum", "C16", "fire", UT, "return ((A + A.T) != 0).astype(int)", "return (np.maximum(A, A.T) != 0).astype(int)", rule="PW.table", what="negative-weight edges vanish from the skeleton")
+V("c16-isclique-upper-raw", "C16", "fire", UT, "    subgraph = skeleton(subgraph)  # drop edge orientations\n    no_edges = np.sum(subgraph != 0)\n    n = len(S)\n    return no_edges == n * (n - 1)",
+  "    no_edges = np.sum(np.triu(subgraph, k=1) != 0)\n    n = len(S)\n    return no_edges == n * (n - 1) / 2", rule="PW.count", what="only upper-triangle entries counted: edges from a higher to a lower index are missed")
+V("c16-silent-isclique-half", "C16", "silent", UT, "    no_edges = np.sum(subgraph != 0)\n    n = len(S)\n    return no_edges == n * (n - 1)",
+  "    no_edges = np.sum(np.triu(subgraph, k=1) != 0)\n    n = len(S)\n    return no_edges == n * (n - 1) / 2", what="counting each unordered pair once on the (symmetric) skeleton")
